@@ -8,12 +8,13 @@ from . import common as C
 
 
 class Case:
-    __slots__ = ("line", "tag", "text")
+    __slots__ = ("line", "tag", "text", "expect")
 
-    def __init__(self, line, tag="", text=None):
+    def __init__(self, line, tag="", text=None, expect=None):
         self.line = line  # protocol line sent to harness and driver
         self.tag = tag  # generator stratum, for the input distribution
         self.text = text  # human-readable form of the input
+        self.expect = expect  # spec expectation computed beforehand (optional)
 
 
 class Prop:
@@ -25,6 +26,8 @@ class Prop:
     needs_tables = False
     release = False  # also run the correspondence on a release build
     technique = "Lean 4 proof + model/implementation correspondence"
+    watchdog_s = 10
+    timeout_is_violation = False
     trusted = []
     min_theorems = 1
 
@@ -54,6 +57,9 @@ class Prop:
 
     def nontrivial(self, case, impl):
         return "ERR" not in impl
+
+    def prepare(self, cases, impl_lines):
+        """Called once with all implementation outputs before the verdicts."""
 
     def finding_key(self, case, impl, reason):
         """Key under which a spec failure may be listed in known_findings.jsonl."""
@@ -137,14 +143,18 @@ def run_check(prop: Prop, tier, seed, replay=None):
     dist = {}
     seen = set()
     nontriv = 0
+    timeouts = 0
     if ok and os.path.exists(C.driver_bin()) and cases:
-        rc1, impl, err1 = C.run_lines(C.harness_bin(False), lines)
-        rc2, drv, err2 = C.run_lines(C.driver_bin(), lines)
+        dbl = C.db_lines_for(lines)
+        rc1, impl, err1 = C.run_lines(C.harness_bin(False), dbl + lines, watchdog=prop.watchdog_s)
+        rc2, drv, err2 = C.run_lines(C.driver_bin(), dbl + lines)
+        impl, drv = impl[len(dbl):], drv[len(dbl):]
         if len(impl) != len(lines):
             obligations.append(("harness answered every case", False, f"{len(impl)}/{len(lines)} rc={rc1} {err1[-300:]}"))
         if len(drv) != len(lines):
             obligations.append(("driver answered every case", False, f"{len(drv)}/{len(lines)} rc={rc2} {err2[-300:]}"))
         n = min(len(impl), len(drv), len(lines))
+        prop.prepare(cases[:n], impl[:n])
         for i in range(n):
             c = cases[i]
             parts = drv[i].split("\t")
@@ -152,6 +162,9 @@ def run_check(prop: Prop, tier, seed, replay=None):
             s = parts[1] if len(parts) > 1 else "-"
             model.append(m)
             dist[c.tag] = dist.get(c.tag, 0) + 1
+            if impl[i] == "TIMEOUT" and not prop.timeout_is_violation:
+                timeouts += 1
+                continue
             if prop.observable(impl[i]) != prop.observable(m):
                 corr_fail.append((i, c, impl[i], m, s))
             reason = prop.spec_verdict(c, impl[i], s)
@@ -162,7 +175,8 @@ def run_check(prop: Prop, tier, seed, replay=None):
                 if prop.nontrivial(c, impl[i]):
                     nontriv += 1
         if prop.release and os.path.exists(C.harness_bin(True)):
-            rc3, impl_r, err3 = C.run_lines(C.harness_bin(True), lines)
+            rc3, impl_r, err3 = C.run_lines(C.harness_bin(True), dbl + lines, watchdog=prop.watchdog_s)
+            impl_r = impl_r[len(dbl):]
             for i in range(min(len(impl_r), n)):
                 if prop.observable(impl_r[i]) != prop.observable(model[i]):
                     corr_fail.append((i, cases[i], "release:" + impl_r[i], model[i], "-"))
@@ -232,6 +246,7 @@ def run_check(prop: Prop, tier, seed, replay=None):
             "spec_failures": len(spec_fail),
             "known_findings_hit": sorted(set(known_hits)),
             "input_distribution": dist,
+            "timeouts_discarded": timeouts,
             "samples": samples,
             "traces_validated_against_impl": len(model),
         },
